@@ -8,6 +8,7 @@ package raft
 import (
 	"bytes"
 	"context"
+	"encoding/json"
 	"errors"
 	"fmt"
 	"os"
@@ -129,12 +130,12 @@ func vsCountTmp(files map[string][]byte) int {
 // the Checksum the value happens to carry. References are compared on this; the
 // checksum of what Load returns is validated separately against its content.
 func vsPayload(st state.ClusterState) string {
-	c := st.Clone()
+	c := st // shallow; vsCanon makes its own deep copy (not through the Clone under test)
 	c.Checksum = ""
 	return vsCanon(c)
 }
 
-var vsDeriveNames = []string{"fresh", "checksum-unset", "stale+applied", "stale+revision", "stale+node", "stale+health", "foreign-checksum", "garbage-checksum"}
+var vsDeriveNames = []string{"fresh", "checksum-unset", "stale+applied", "stale+revision", "stale+node", "stale+health", "foreign-checksum", "garbage-checksum", "restore-job"}
 
 // derive turns a published state (checksum filled in for its content, as
 // Snapshot/Load/Decode return it) into what a read-modify-write caller would
@@ -142,9 +143,31 @@ var vsDeriveNames = []string{"fresh", "checksum-unset", "stale+applied", "stale+
 // struct. Tape value 0 keeps the state as it is.
 func (c *vsC19) derive(role string, st state.ClusterState, pool []state.ClusterState) state.ClusterState {
 	tp := c.r.Tape
-	k := tp.Weighted([]int{5, 1, 2, 1, 1, 1, 1, 1})
+	k := tp.Weighted([]int{5, 1, 2, 1, 1, 1, 1, 1, 3})
 	d := st.Clone()
 	switch k {
+	case 8:
+		// a state in maintenance-mode restore, built directly (the command path
+		// reaches it only from 256-hash-slot clusters with no active task):
+		// 256 per-hash-slot replica evidence lists of tape-chosen, mostly
+		// non-uniform lengths. Everything the restore needs to be valid is forced.
+		d.Checksum = ""
+		if tbl, err := state.BuildInitialHashSlotTable(d.Config.SlotCount, state.BackupHashSlotCount); err == nil {
+			d.Config.HashSlotCount = state.BackupHashSlotCount
+			d.HashSlots = tbl
+		}
+		d.Tasks = nil
+		sb := state.ScheduledBackupState{Revision: 1, ManagerSessionEpoch: 1}
+		if d.ScheduledBackup != nil {
+			sb = *d.ScheduledBackup
+		}
+		sb.ActiveBackup = nil
+		if sb.Plan == nil {
+			sb.Plan = &state.BackupPlan{Revision: 1, Enabled: true, Store: state.BackupStoreConfig{Kind: state.BackupStoreKindFile}, Cron: "0 3 * * *", TimeZone: "UTC",
+				RetentionCount: 3, RateBytesPerSec: 1 << 20, WorkersPerNode: 1, MaxDurationMillis: 3600000, ScheduleCursorUnixMillis: 2000, CreatedUnixMillis: 1000, UpdatedUnixMillis: 1000}
+		}
+		sb.ActiveRestore = vsRestoreJob(tp)
+		d.ScheduledBackup = &sb
 	case 1:
 		d.Checksum = ""
 	case 2: // what the raft log compactor does
@@ -189,11 +212,14 @@ func (c *vsC19) derive(role string, st state.ClusterState, pool []state.ClusterS
 		c.stale++
 	}
 	c.r.Config["derive_"+role] = vsDeriveNames[k]
+	c.fields.add(d)
+	c.fields.noteRestoreShape(d)
 	return d
 }
 
 type vsC19 struct {
-	stale int // states handed to Save with a checksum that does not match their content
+	stale  int        // states handed to Save with a checksum that does not match their content
+	fields vsFieldSet // which fields of the state type the saved states populated
 	r         *simkit.Run
 	base      string
 	prev      *state.ClusterState
@@ -223,7 +249,8 @@ func runC19(t *testing.T, r *simkit.Run) {
 		r.Probe("pool.empty")
 		return
 	}
-	c := &vsC19{r: r, base: vsRunDir(r), seen: map[string]bool{}}
+	c := &vsC19{r: r, base: vsRunDir(r), seen: map[string]bool{}, fields: vsFieldSet{}}
+	defer c.fields.flush(r)
 	if err := os.MkdirAll(c.base, 0o755); err != nil {
 		r.Infra("mkdir %s: %v", c.base, err)
 		return
@@ -377,7 +404,8 @@ func (c *vsC19) loadSaved(what string, saved state.ClusterState) (state.ClusterS
 		return got, false
 	}
 	if vsPayload(got) != vsPayload(saved) {
-		r.FailSig("save_load_mismatch", sig, fmt.Sprintf("load after save of the %s state: got rev %d applied %d, saved rev %d applied %d", what, got.Revision, got.AppliedRaftIndex, saved.Revision, saved.AppliedRaftIndex), nil)
+		r.FailSig("save_load_mismatch", sig, fmt.Sprintf("Save of the %s state returned nil and the file loads with a valid checksum, but its logical content differs from what was saved in: %s (got rev %d applied %d, saved rev %d applied %d)",
+			what, vsDiffKeys(vsPayload(got), vsPayload(saved)), got.Revision, got.AppliedRaftIndex, saved.Revision, saved.AppliedRaftIndex), nil)
 		return got, false
 	}
 	c.checkLoaded("after save of "+what, got)
@@ -391,7 +419,7 @@ func (c *vsC19) loadSaved(what string, saved state.ClusterState) (state.ClusterS
 // recovery and followers decode with the same state.Decode as the state file).
 func (c *vsC19) encodeLikeCompaction(loaded state.ClusterState) {
 	r := c.r
-	st := loaded.Clone()
+	st := loaded // shallow: only the applied index changes
 	bump := uint64(r.Tape.Intn(4))
 	st.AppliedRaftIndex += bump
 	data, err := state.Encode(st)
@@ -739,6 +767,27 @@ func (c *vsC19) corrupt(orig []byte, ref state.ClusterState) {
 		r.Probe("corrupt.accepted_equal")
 		r.State("c19-corrupt", k, "equal")
 	}
+}
+
+// vsDiffKeys names the top-level JSON keys in which two canonical documents differ.
+func vsDiffKeys(a, b string) string {
+	var ma, mb map[string]json.RawMessage
+	if json.Unmarshal([]byte(a), &ma) != nil || json.Unmarshal([]byte(b), &mb) != nil {
+		return "?"
+	}
+	var out []string
+	for k, v := range ma {
+		if w, ok := mb[k]; !ok || !bytes.Equal(v, w) {
+			out = append(out, k)
+		}
+	}
+	for k := range mb {
+		if _, ok := ma[k]; !ok {
+			out = append(out, k)
+		}
+	}
+	sort.Strings(out)
+	return strings.Join(out, ",")
 }
 
 // vsDiffFields names the top-level fields in which two states differ.
